@@ -65,7 +65,7 @@ func (e *Endpoint) Read(b []byte) (int, error) {
 		if e.p.stalled {
 			return 0, ErrStalled
 		}
-		if (e.other.waiting || e.other.idle) && len(e.other.in) == 0 {
+		if e.other.idle || (e.other.waiting && len(e.other.in) == 0) {
 			e.p.stalled = true
 			e.p.cond.Broadcast()
 			return 0, ErrStalled
